@@ -225,6 +225,19 @@ Definition hunted (s : state) (m : mac) : bool := hunt_has m (hunt s).
 (* configuration sanity used by the theorems: we are not the router *)
 Definition cfg_ok (c : cfg) : Prop := host_mac c <> router_mac c.
 
+(* shapes of events, for statements about runs *)
+Definition is_wake_of (i : nat) (e : event) : bool :=
+  match e with Wake j _ => Nat.eqb i j | _ => false end.
+Definition is_close (e : event) : bool := match e with Close => true | _ => false end.
+Definition is_start_of (m : mac) (e : event) : bool :=
+  match e with StartHunt a => amac a =? m | _ => false end.
+Definition none_of (P : event -> bool) (evs : list event) : Prop :=
+  forallb (fun e => negb (P e)) evs = true.
+
+(* loop i exists, was started for address a, and is running / has returned *)
+Definition loop_is (s : state) (i : nat) (a : addr) (running : bool) : Prop :=
+  nth_error (loops s) i = Some (mkLoop a running).
+
 (* ---- recorded defect classes (decidable, narrow) ---- *)
 
 (* K1: a probe for the ROUTER's address from a MAC that holds a different offer is answered with a
